@@ -100,6 +100,21 @@ def run(rng, tier, res=None):
         if kept != log[best]["forest"]:
             msgs.append(f"classifier left in the object is not the one of the best iteration {best + 1} (accuracies {accs})")
         viol(msgs, meta)
+        # C01 on the classifier learn leaves behind: an optimum-path forest over the samples IT stores
+        try:
+            import oracles as O
+            nds = o.subgraph.nodes
+            nn = len(nds)
+            Wm = [[float(o.distance_fn(nds[a].features.copy(), nds[b].features.copy())) for b in range(nn)] for a in range(nn)]
+            if all(Wm[a][b] == Wm[b][a] for a in range(nn) for b in range(nn)) and len({nd.label for nd in nds}) >= 2:
+                m1 = O.check_forest(nn, lambda a, b: Wm[a][b], [nd.label for nd in nds], [nd.status == 1 for nd in nds],
+                                    [nd.cost for nd in nds], [nd.pred for nd in nds], [nd.predicted_label for nd in nds],
+                                    list(o.subgraph.idx_nodes))
+                for mm in m1[:2]:
+                    res.violations.append({"property": "C01", "what": "classifier left by learn(): " + mm, "replay": meta})
+                res.hit("c01_on_learned_classifier")
+        except Exception as ex:
+            res.notes.append(f"c01-on-learn oracle skipped: {type(ex).__name__}")
         res.hit("learn_iterations_%d" % len(log)); res.hit("learn_best_not_last" if best != len(log) - 1 else "learn_best_last")
         # ---- model lines: the exchange loop of every iteration, and the keep-the-best rule ----
         unique_rows = len(ident) == n     # identical (row, label) pairs cannot be told apart: no exchange trace for them
